@@ -5,17 +5,16 @@ CONSTANTS
  HeartbeatTO = 1000
  TermTO = 3000
  FixVote = TRUE
- MaxTerm = 2
- MaxLog = 2
+ MaxTerm = 3
+ MaxLog = 3
  Values = {1}
  AppendAnywhere = FALSE
- MaxTmo = 2
- MaxHb = 0
+ MaxTmo = 6
+ MaxHb = 3
  MaxDup = 0
- MaxFlight = 3
+ MaxFlight = 6
  MaxRestart = 0
  InitMode = "elected"
-VIEW View
 CONSTRAINT Constraint
+INVARIANT LeaderCompleteness
 CHECK_DEADLOCK FALSE
-INVARIANT CommitStable
